@@ -87,11 +87,12 @@ func (e *opError) Timeout() bool { return e.timeout }
 func (e *opError) Temporary() bool { return e.timeout }
 
 var (
-	errClosed  = &opError{"use", "use of closed network connection", false}
-	errRefused = &opError{"dial", "connection refused", false}
-	errReset   = &opError{"read", "connection reset by peer", false}
-	errPipe    = &opError{"write", "broken pipe", false}
-	errTimeout = &opError{"read", "i/o timeout", true}
+	errClosed       = &opError{"use", "use of closed network connection", false}
+	errRefused      = &opError{"dial", "connection refused", false}
+	errReset        = &opError{"read", "connection reset by peer", false}
+	errPipe         = &opError{"write", "broken pipe", false}
+	errTimeout      = &opError{"read", "i/o timeout", true}
+	errWriteTimeout = &opError{"write", "i/o timeout", true}
 )
 
 //go:norace
@@ -337,6 +338,7 @@ type TCPConn struct {
 	rst          bool
 	closed       bool
 	rdl          time.Time
+	wdl          time.Time
 	grace        int
 	BytesWritten int64
 	BytesRead    int64
@@ -407,10 +409,26 @@ func (c *TCPConn) LocalAddr() Addr { return c.local }
 func (c *TCPConn) RemoteAddr() Addr { return c.remote }
 
 //go:norace
-func (c *TCPConn) SetDeadline(t time.Time) error { return c.SetReadDeadline(t) }
+func (c *TCPConn) SetDeadline(t time.Time) error {
+	if err := c.SetReadDeadline(t); err != nil {
+		return err
+	}
+	return c.SetWriteDeadline(t)
+}
 
+// SetWriteDeadline: a Write that is still blocked on the peer's full receive queue at t returns what it has written so far and a
+// timeout error, like the kernel's.
+//
 //go:norace
-func (c *TCPConn) SetWriteDeadline(t time.Time) error { return nil }
+func (c *TCPConn) SetWriteDeadline(t time.Time) error {
+	lk(c.mu)
+	defer ul(c.mu)
+	if c.closed {
+		return errClosed
+	}
+	c.wdl = t
+	return nil
+}
 
 //go:norace
 func (c *TCPConn) SetReadDeadline(t time.Time) error {
@@ -547,7 +565,13 @@ func (c *TCPConn) Write(p []byte) (int, error) {
 			}
 			return true
 		}
-		c.cond.Wait(ok, time.Time{})
+		lk(c.mu)
+		wdl := c.wdl
+		ul(c.mu)
+		if !c.cond.Wait(ok, wdl) {
+			c.n.count("write_deadline")
+			return written, errWriteTimeout
+		}
 		if err != nil {
 			c.n.count("write_error")
 			return written, err
